@@ -111,6 +111,19 @@ class Scenario:
                 (copts if w == "C" else sopts)["maxFramePayloadSize"] = lim      # both limits, same value, one call
             o["limit"][w] = lim
             self.limit_who = w
+            mine, other_opts = (copts, sopts) if w == "C" else (sopts, copts)
+            r_ = rng.random()
+            if r_ < 0.2:
+                # the limits as class attributes of the protocol subclass instead of factory options
+                mine["_attrs"] = {k: mine.pop(k) for k in ("maxMessagePayloadSize", "maxFramePayloadSize") if k in mine}
+            elif r_ < 0.4:
+                # configured in two steps: another value first
+                mine["_pre"] = dict(maxMessagePayloadSize=rng.choice([0, 7, lim + 1000]))
+            if rng.random() < 0.3:
+                # the peer had a limit that was lifted again (0 = unlimited): it has none
+                other_opts["_pre"] = dict(maxMessagePayloadSize=rng.choice([1, 5, 100]), maxFramePayloadSize=rng.choice([0, 5]))
+                other_opts["maxMessagePayloadSize"] = 0
+                other_opts["maxFramePayloadSize"] = 0
         # a receiver with a *frame* size limit only: fragmented messages larger than the limit must still arrive
         self.frame_limit = None
         if self.profile == "c01" and not o["compress"] and not self.limit_who and rng.random() < 0.12:
